@@ -317,6 +317,10 @@ def gate_and_report(prop, binary, batch, outdir, extra=(), env=None, max_reports
     nviol = 0
     harness_error = False
     os.makedirs(os.path.join(VERIF, "replays"), exist_ok=True)
+    no_verdict = {k: v for k, v in batch.counters.items() if k.startswith("harness.HARNESS") and v}
+    if no_verdict:
+        log("HARNESS-ERROR property=%s: plans ended without a verdict for a reason of the harness's own: %s" % (prop, ", ".join("%s x%d" % (k[8:], v) for k, v in sorted(no_verdict.items()))))
+        harness_error = True
     for sig, v in list(seen.items())[:max_reports]:
         seed = v["seed"]
         # (a) same seed, same fingerprint
